@@ -231,7 +231,7 @@ def _run_proc(ctx, binary, cases, par, deadline, tag):
     with open(inp, "w") as f:
         for c in cases:
             f.write(json.dumps(c, separators=(",", ":")) + "\n")
-    env = vlib.goenv()
+    env = vlib.harness_env(ctx)
     env["VERIF_SEED"] = str(ctx.seed)
     with open(inp) as fin:
         try:
